@@ -166,6 +166,24 @@ def engine_ksched(pid, tier, seed, res, max_n=None):
         records.extend(recs)
         n_complete += 1 if complete else 0
     res.notes.append("all schedules explored exhaustively for %d of %d small cases (%s)" % (n_complete, len(dfs_cases), "quick: corpus" if tier == "quick" else "all shapes <= 3 nodes x 2 attribute assignments + corpus"))
+    # fault injection: the pool refuses one thread node's work item.  Whatever the call then does (raising is fine),
+    # a pooled node never runs on the invoking thread (C04)
+    if pid == "C04":
+        from . import tz as _tz
+        for c in [c_ for c_ in cases[:corpus_n + 60] if c_.get("mode", "call") == "call" and not c_.get("fails")][:40]:
+            thr = [i for i, a in enumerate(c["attrs"]) if a["resource"] == "thread"]
+            if not thr:
+                continue
+            d_, thunks_ = sched_cases.build(c)
+            ctl_ = _tz.Ctl(free_run=True)
+            ctl_.refuse = {sched_cases.node_name(rng.choice(thr))}
+            _tz.run_controlled(thunks_[0], ctl_, is_async=c["is_async"])
+            res.evaluations += 1
+            for e_ in ctl_.trace:
+                if e_[0] == "XENTER" and e_[2] and c["attrs"][int(e_[1][1:])]["resource"] != "main-thread" and e_[1][1:].isdigit():
+                    res.hit("C04", "monitor", "the pool refused the work item of %s (injected fault) and pooled node %s then ran on the scheduler's thread" % (sorted(ctl_.refuse), e_[1]),
+                            dict(engine="ksched", case=c, kind="monitor", refuse=sorted(ctl_.refuse)))
+                    break
     # uncontrolled runs with slow node bodies
     for c in sched_cases.SLOW_CORPUS:
         if n_bad >= 4:
@@ -276,6 +294,20 @@ def engine_ksched(pid, tier, seed, res, max_n=None):
 def replay(pid, path):
     data = json.load(open(path))
     rp = data.get("replay") or {}
+    if rp.get("engine") == "ksched" and rp.get("refuse"):
+        from . import tz as _tz
+        c = rp["case"]
+        d_, thunks_ = sched_cases.build(c)
+        ctl_ = _tz.Ctl(free_run=True)
+        ctl_.refuse = set(rp["refuse"])
+        _tz.run_controlled(thunks_[0], ctl_, is_async=c["is_async"])
+        bad = [e_[1] for e_ in ctl_.trace if e_[0] == "XENTER" and e_[2] and e_[1][1:].isdigit() and c["attrs"][int(e_[1][1:])]["resource"] != "main-thread"]
+        if bad:
+            print("VIOLATION property=%s replay=%s" % (pid, path))
+            print("  the pool refused the work item of %s (injected fault) and pooled node %s then ran on the scheduler's thread" % (sorted(ctl_.refuse), bad[0]))
+            return 1
+        print("replay of %s: property %s holds on the current tree" % (path, pid))
+        return 0
     if rp.get("engine") == "ksched":
         rec = ksched.run_case(rp["case"], sched_seed=rp.get("sched_seed"), choose=rp.get("choices"), inline=rp.get("inline"))
         ksched.evaluate([rec], prefix="replay_%s" % pid)
